@@ -1071,4 +1071,30 @@ v("parser-exit-on-error-off", [(SESS, '            "prog": "",\n', '            
 v("subparser-argument-default-suppress", [(PARSER, "        super().__init__(**kwargs)\n        self._flags", '        kwargs.setdefault("argument_default", SUPPRESS)\n        super().__init__(**kwargs)\n        self._flags')], {"C17": "R17.12"})
 v("P-parser-allow-abbrev-spelled-out", [(SESS, '            "prog": "",\n', '            "prog": "",\n            "allow_abbrev": True,\n')], {"C17": "ok", "C18": "ok"})
 
+# R19.8: a read loop that goes round again on an empty read never yields once the client has hung up
+v("listen-continues-on-empty-read", [(SESS, '                log.debug("%s disconnected", self._client_class_name)\n                break\n', '                log.debug("%s disconnected", self._client_class_name)\n                continue\n')], {"C19": "R19.8"})
+v("handshake-skips-blank-lines", [(SESS, "        msg = (await self._reader.readline()).decode().strip()\n        client_info = json.loads(msg)\n", '        msg = ""\n        while not msg:\n            msg = (await self._reader.readline()).decode().strip()\n        client_info = json.loads(msg)\n')], {"C19": "R19.8"})
+
+WRAP_IS = "        if arg is SUPPRESS:\n"
+v("suppress-compared-by-equality", [(PARSER, WRAP_IS, "        if arg == SUPPRESS:\n")], {"C17": "R17.6", "C18": "R18.7"})
+v("suppress-test-dropped", [(PARSER, WRAP_IS, "        if isinstance(arg, str) and arg.startswith('=='):\n")], {"C18": "R18.7"})
+CANCEL_MEMBER = """            try:
+                self._tasks_running[group_reg.pop()].cancel(**cancel_kw)
+            except KeyError:
+                continue
+"""
+v("P-group-cancel-get-and-skip-missing", [(P, CANCEL_MEMBER, "            task = self._tasks_running.get(group_reg.pop())\n            if task is None:\n                continue\n            task.cancel(**cancel_kw)\n")], {"C07": "ok", "C03": "ok"})
+v("group-cancel-skips-current-task", [(P, "from asyncio.tasks import Task, create_task, gather\n", "from asyncio.tasks import Task, create_task, current_task, gather\n"),
+                                      (P, CANCEL_MEMBER, "            task = self._tasks_running.get(group_reg.pop())\n            if task is None or task is current_task():\n                continue\n            task.cancel(**cancel_kw)\n")], {"C07": "viol"})
+v("group-cancel-skips-even-ids", [(P, CANCEL_MEMBER, "            task_id = group_reg.pop()\n            if task_id % 2 == 0:\n                continue\n            try:\n                self._tasks_running[task_id].cancel(**cancel_kw)\n            except KeyError:\n                continue\n")], {"C07": "viol"})
+
+# helpers moved into internals/helpers.py (rf121): the rules follow the helper's parameters back to the call
+HELPERS = "internals/helpers.py"
+v("P-moved-helpers", [], {"C10": "ok", "C14": "ok", "C17": "ok"}, base="rf121")
+v("moved-unique-name-returns-taken", [(HELPERS, "        if name not in taken:\n            return name\n", "        if name in taken:\n            return name\n")], {"C10": "R10.3"}, base="rf121")
+v("moved-unique-name-other-table", [(P, "        return unique_name(base_name, self._task_groups)\n", "        return unique_name(base_name, self._tasks_running)\n")], {"C10": "R10.3"}, base="rf121")
+v("moved-first-n-oldest-first", [(P, "        ids = first_n(reversed(self._tasks_running), num)\n", "        ids = first_n(self._tasks_running, num)\n")], {"C14": "R14.1"}, base="rf121")
+v("moved-first-n-off-by-one", [(HELPERS, "        if i >= num:\n", "        if i > num:\n")], {"C14": "R14.1"}, base="rf121")
+v("moved-ok-constant-shadowed-in-helpers", [(HELPERS, "def output_to_response(", "CMD_OK = b\"OK\"\n\n\ndef output_to_response(")], {"C17": "viol"}, base="rf121")
+
 VARIANTS = V
